@@ -20,7 +20,11 @@ class PyprojectWriter(DependencyWriter):
     def add_to_file(
         self, dependencies: list[Dependency], dry_run: bool = False
     ) -> Optional[ChangeSet]:
-        pyproject = self._parse_file()
+        try:
+            pyproject = self._parse_file()
+        except Exception:
+            logger.debug("Unable to read pyproject.toml file.")
+            return None
         original = deepcopy(pyproject)
 
         if pyproject.get("tool", {}).get("poetry", {}):
